@@ -280,6 +280,7 @@ class ListProg:
 
 def run_source_level(chk, binary, nprog):
     progs = [ListProg(chk.rng).build(chk.rng.randrange(4, 14)) for _ in range(nprog)]
+    progs = [p for p in progs if p.stmts]      # a program may come out empty (every draw hit tail of [])
     fixed = ListProg(chk.rng)
     fixed.stmts = ["print(cons(1, cons(2, tail([7, 8, 9]))))", "let a = [1, 2, 3]", "let b = tail(a)",
                    "let c = cons(9, b)", "print(a)", "print(b)", "print(c)", "print(cons_end(4, tail(tail(a))))", "print(a)"]
